@@ -37,6 +37,34 @@ type viPeer struct {
 	pc    *PeerConnection
 	mu    sync.Mutex
 	chans []*viChan
+	alloc []int // ids the allocator handed to concurrent callers (allocBurst)
+}
+
+// allocBurst calls the allocator of the endpoint's SCTP transport from n goroutines at once, the
+// way concurrent CreateDataChannel calls do, and records every id handed out.
+func (p *viPeer) allocBurst(n, each int) {
+	p.pc.dtlsTransport.lock.RLock()
+	role := p.pc.dtlsTransport.role()
+	p.pc.dtlsTransport.lock.RUnlock()
+	start := make(chan struct{})
+	var wg sync.WaitGroup
+	for g := 0; g < n; g++ {
+		wg.Add(1)
+		go func() {
+			defer wg.Done()
+			<-start
+			for i := 0; i < each; i++ {
+				var id *uint16
+				if err := p.pc.sctpTransport.generateAndSetDataChannelID(role, &id); err == nil && id != nil {
+					p.mu.Lock()
+					p.alloc = append(p.alloc, int(*id))
+					p.mu.Unlock()
+				}
+			}
+		}()
+	}
+	close(start)
+	wg.Wait()
 }
 
 func (p *viPeer) add(dc *DataChannel, explicit bool, origin string) {
@@ -57,6 +85,12 @@ func (p *viPeer) snapshot() []vkM {
 		out = append(out, vkM{"k": k, "id": id, "explicit": c.explicit, "origin": c.origin})
 	}
 	return out
+}
+
+func (p *viPeer) allocs() []int {
+	p.mu.Lock()
+	defer p.mu.Unlock()
+	return append([]int{}, p.alloc...)
 }
 
 func TestVerifDcIds(t *testing.T) {
@@ -95,7 +129,7 @@ func viRun(t *testing.T, tr *vkTrace, bh viBehaviour) { //nolint:cyclop
 	}
 	emit := func(step string) {
 		for _, p := range []*viPeer{a, b} {
-			tr.Emit(vkM{"ev": "ids", "t": bh.ID, "who": p.name, "role": role(p), "chans": p.snapshot(), "connected": connected,
+			tr.Emit(vkM{"ev": "ids", "t": bh.ID, "who": p.name, "role": role(p), "chans": p.snapshot(), "alloc": p.allocs(), "connected": connected,
 				"sig": fmt.Sprintf("ids(%s,%s,after=%s)", p.name, role(p), step)})
 		}
 	}
@@ -206,6 +240,12 @@ func viRun(t *testing.T, tr *vkTrace, bh viBehaviour) { //nolint:cyclop
 				}
 				time.Sleep(time.Millisecond)
 			}
+		case "allocBurst":
+			if connected {
+				// the model takes k ids; the real allocator is asked by 8 goroutines, k times each
+				who(st.Who).allocBurst(8, st.K)
+			}
+			desc = fmt.Sprintf("allocBurst(%s)", st.Who)
 		case "close":
 			p := who(st.Who)
 			p.mu.Lock()
